@@ -3,7 +3,7 @@
    Definitions only. *)
 From Coq Require Import ZArith List Bool String.
 Import ListNotations.
-Require Import PyBase Locate.
+Require Import PyBase Locate LocateIndex.
 Open Scope Z_scope.
 
 Inductive lop : Type :=
@@ -12,7 +12,9 @@ Inductive lop : Type :=
 | OpEval (a b : option (string * option Z)) (s : Z)
 | OpLocate (x : label)
 | OpSetPos (i : Z) (v : Z)
-| OpSetWhole (w : operand Z).
+| OpSetWhole (w : operand Z)
+| OpGetN (name : string) (k : key)                    (* obj[name, key] for an arbitrary (unknown) name *)
+| OpSetN (name : string) (k : key) (w : operand Z).
 
 (* observation: outcome (scalar / array / nothing), X after the call, X read back label by label *)
 (* o_same: the container still holds the SAME array object for X (element writes are in place; only a whole-series
@@ -69,6 +71,34 @@ Definition run_lop (c : lcase) : cstate Z * outcome (rd Z) :=
                        | Raise e => Raise e end)
   | OpSetPos i v => let '(st', o) := set_pos st "X" i v in (st', unit_out o)
   | OpSetWhole w => let '(st', o) := set_whole st "X" w 3 in (st', unit_out o)
+  | OpGetN n k => (st, get_item gl st n k)
+  | OpSetN n k w => let '(st', o) := set_item gl st n k w in (st', unit_out o)
+  end.
+
+(* the regular-index MODEL of pandas' get_loc / `in` (LocateIndex.v) against the recorded answers: on a pandas span recognised
+   as a period_range / fixed-frequency date_range, for every recorded label the model speaks about (not text, not a Timestamp
+   in a PeriodIndex) the model's answer (exceptions as KeyError) and its membership test equal pandas' *)
+Definition oloc_eqb (a b : outcome loc) : bool :=
+  match a, b with
+  | Ret (LPos i f), Ret (LPos j g) => (i =? j) && Bool.eqb f g
+  | Ret (LSlice i j), Ret (LSlice i' j') => (i =? i') && (j =? j')
+  | Raise e, Raise f => exn_eqb e f
+  | _, _ => false
+  end.
+Definition pd_model_ok (c : lcase) : bool :=
+  match l_span c with
+  | SPandas ls =>
+      match recognise ls with
+      | Some (k, a, s) =>
+          forallb (fun xb : label * bool =>
+                     let x := fst xb in
+                     negb (model_speaks k x)
+                     || (oloc_eqb (to_KeyError (reg_get_loc k a s (List.length ls) x)) (to_KeyError (tbl_get_loc (l_tbl c) ls x))
+                         && Bool.eqb (reg_contains k a s (List.length ls) x) (snd xb)))
+                  (l_in c)
+      | None => true
+      end
+  | _ => true
   end.
 
 Definition check_lcase (c : lcase) : bool :=
@@ -77,6 +107,7 @@ Definition check_lcase (c : lcase) : bool :=
   && zlist_eqb (data_of st' "X") (o_after (l_obs c))
   && zlist_eqb (data_of st' "Y") (l_other c)
   && Bool.eqb (id_of st' "X" =? 1) (o_same (l_obs c))
+  && pd_model_ok c
   && outs_eqb (map (fun l => get_item (tbl_get_loc (l_tbl c)) st' "X" (KLabel l)) (span_labels (l_span c)))
               (o_bylabel (l_obs c)).
 
